@@ -68,6 +68,8 @@ pub fn evaluate(sc: &ChanSc, run: &ChanRun) -> Vec<Violation> {
             _ => {}
           }
         }
+        let born = born_of_closed(evs, tx);
+        all.retain(|h| !born.contains(h));
         let gone = |h: u16| evs.iter().any(|e| e.handle == h && matches!((&e.k, tx), (EvK::TxDrop, true) | (EvK::TxClose { ok: true }, true) | (EvK::RxDrop, false) | (EvK::RxClose { ok: true }, false)));
         if all.iter().all(|h| gone(*h)) {
           let class = if tx { "receiver_blocked_forever_after_last_sender_gone" } else { "sender_blocked_forever_after_last_receiver_gone" };
@@ -156,7 +158,9 @@ pub fn evaluate(sc: &ChanSc, run: &ChanRun) -> Vec<Violation> {
   }
 
   // C01: every Ok send is received, provided some receiver kept receiving until Disconnected
-  let drained = evs.iter().any(|e| matches!(&e.k, EvK::Recv { out, .. } if out.res == RRes::Disconnected) && !handle_closed_before(evs, e.handle, false, e.inv));
+  // (a handle that was itself closed, or cloned from a closed one, says Disconnected about itself)
+  let born_rx = born_of_closed(evs, false);
+  let drained = evs.iter().any(|e| matches!(&e.k, EvK::Recv { out, .. } if out.res == RRes::Disconnected) && !handle_closed_before(evs, e.handle, false, e.inv) && !born_rx.contains(&e.handle));
   if drained {
     let lost: Vec<u32> = ok_tokens.keys().copied().filter(|id| !received.contains_key(id)).collect();
     if !lost.is_empty() {
@@ -281,10 +285,53 @@ pub fn evaluate(sc: &ChanSc, run: &ChanRun) -> Vec<Violation> {
 /// C04: disconnect protocol rules that only need handle life-cycle and result events.
 /// `oneshot` relaxes the premature-Disconnected rule once the single value was taken.
 pub fn c04_rules(flavour: &str, oneshot: bool, evs: &[Ev], vs: &mut Vec<Violation>) {
+    // Clones made from a handle after its own close(): the properties do not say whether such a
+    // clone is a live handle or a closed one, so it is neither counted as alive nor held to the
+    // closed-handle rules; what it must never do is bring a disconnected channel back (below).
+    let born_tx = born_of_closed(evs, true);
+    let born_rx = born_of_closed(evs, false);
     // when was each handle closed (Ok) / dropped: invocation stamps
-    let tx_handles: BTreeSet<u16> = handles(evs, true);
-    let rx_handles: BTreeSet<u16> = handles(evs, false);
+    let tx_handles: BTreeSet<u16> = handles(evs, true).difference(&born_tx).copied().collect();
+    let rx_handles: BTreeSet<u16> = handles(evs, false).difference(&born_rx).copied().collect();
+    // first moment a (live, not self-closed) handle was told the other side is gone for good
+    let mut first_disc: Option<(u64, u16)> = None;
+    let mut first_closed: Option<(u64, u16)> = None;
     for e in evs {
+      match &e.k {
+        EvK::Recv { out, .. } if out.res == RRes::Disconnected && !born_rx.contains(&e.handle) && !handle_closed_before(evs, e.handle, false, e.inv) => {
+          let oneshot_done = oneshot && evs.iter().any(|x| x.ret < e.ret && matches!(&x.k, EvK::Recv { out, .. } if out.res == RRes::Got));
+          if !oneshot_done && first_disc.map(|(t, _)| e.ret < t).unwrap_or(true) {
+            first_disc = Some((e.ret, e.handle));
+          }
+        }
+        EvK::Send { out, .. } if out.res == SRes::Closed && !born_tx.contains(&e.handle) && !handle_closed_before(evs, e.handle, true, e.inv) => {
+          if first_closed.map(|(t, _)| e.ret < t).unwrap_or(true) {
+            first_closed = Some((e.ret, e.handle));
+          }
+        }
+        _ => {}
+      }
+    }
+    for e in evs {
+      if let EvK::Send { out, form, .. } = &e.k {
+        if out.sent > 0 || out.res == SRes::Ok {
+          if let Some((t, h)) = first_disc {
+            if e.inv > t {
+              vs.push(viol_named(flavour, "C04", "send_accepted_after_disconnected_observed", &[("form", format!("{form:?}")), ("via_clone_of_closed_handle", born_tx.contains(&e.handle).to_string())], format!("receiver handle {h} was told Disconnected at {t} (every sender gone for good), yet sender handle {} had a send invoked at {} accepted ({:?}, sent {})", e.handle, e.inv, out.res, out.sent)));
+            }
+          }
+          if let Some((t, h)) = first_closed {
+            if e.inv > t {
+              vs.push(viol_named(flavour, "C04", "send_accepted_after_closed_observed", &[("form", format!("{form:?}"))], format!("sender handle {h} was told Closed at {t} (every receiver gone for good), yet sender handle {} had a send invoked at {} accepted ({:?}, sent {})", e.handle, e.inv, out.res, out.sent)));
+            }
+          }
+        }
+      }
+    }
+    for e in evs {
+      if (matches!(e.k, EvK::Recv { .. }) && born_rx.contains(&e.handle)) || (matches!(e.k, EvK::Send { .. }) && born_tx.contains(&e.handle)) {
+        continue;
+      }
       match &e.k {
         EvK::Recv { out, form, .. } => {
           let own_closed = handle_closed_before(evs, e.handle, false, e.inv);
@@ -330,6 +377,8 @@ pub fn c04_rules(flavour: &str, oneshot: bool, evs: &[Ev], vs: &mut Vec<Violatio
             vs.push(viol_named(flavour, "C04", "value_after_disconnected", &[], format!("receiver handle {} obtained {:?} after it had observed Disconnected", e.handle, out.got)));
           }
         }
+        EvK::TxClose { .. } if born_tx.contains(&e.handle) => {}
+        EvK::RxClose { .. } if born_rx.contains(&e.handle) => {}
         EvK::TxClose { ok } => {
           if *ok && !closed_ok.insert((true, e.handle)) {
             vs.push(viol_named(flavour, "C04", "close_not_idempotent", &[("side", "tx".into())], format!("second close() of sender handle {} reported Ok", e.handle)));
@@ -369,6 +418,21 @@ pub fn any_cancel(evs: &[Ev]) -> bool {
     EvK::Recv { out, .. } => out.res == RRes::Cancelled,
     _ => false,
   })
+}
+
+/// Handles cloned from a handle whose own close() had already returned Ok (transitively).
+pub fn born_of_closed(evs: &[Ev], tx: bool) -> BTreeSet<u16> {
+  let mut born: BTreeSet<u16> = BTreeSet::new();
+  for e in evs {
+    let to = match (&e.k, tx) {
+      (EvK::TxClone { to }, true) | (EvK::RxClone { to }, false) => *to,
+      _ => continue,
+    };
+    if born.contains(&e.handle) || handle_closed_before(evs, e.handle, tx, e.inv) {
+      born.insert(to);
+    }
+  }
+  born
 }
 
 pub fn handles(evs: &[Ev], tx: bool) -> BTreeSet<u16> {
